@@ -1296,7 +1296,7 @@ Proof.
            ++ apply refs_filter. eapply refs_retarget; [intros r Hr; exact (gc_resolvable_step _ _ _ _ _ _ _ Hwf E2 Hr)|].
               eapply refs_retarget; [|exact Hrefs]. intros r Hr. rewrite retarget1_nil. exact Hr.
         -- inversion Hrun; subst. cbn [ds_reg with_reg]. split; [apply failed_reg_wf; exact Hwf|].
-           eapply refs_mono; [|exact Hrefs]. intros r Hr. apply failed_reg_resolvable. exact Hr.
+           eapply refs_retarget; [|exact Hrefs]. intros r Hr. rewrite retarget1_nil. apply failed_reg_resolvable. exact Hr.
       * destruct (get_configurable (ds_reg s) c rsel) as [[[reg1 rfull] rp1]|err] eqn:E1.
         -- assert (Hwf1 : reg_wf reg1) by (eapply get_configurable_wf; eauto).
            destruct (get_configurable reg1 c sel) as [[[reg2 full] rp2]|err] eqn:E2.
@@ -1307,8 +1307,8 @@ Proof.
                      eapply refs_retarget; [|exact Hrefs]. intros r Hr. exact (gc_resolvable_step _ _ _ _ _ _ _ Hwf E1 Hr).
                  --- cbn [snd]. eapply gc_resolvable_mono; [exact E2|]. exact (gc_full_resolvable _ _ _ _ _ _ Hwf Hok E1).
            ++ inversion Hrun; subst. cbn [ds_reg with_reg]. split; [apply failed_reg_wf; exact Hwf1|].
-              eapply refs_mono; [|exact Hrefs]. intros r Hr. apply failed_reg_resolvable.
-              exact (gc_resolvable_mono _ _ _ _ _ _ _ E1 Hr).
+              eapply refs_retarget; [|exact Hrefs]. intros r Hr. apply failed_reg_resolvable.
+              exact (gc_resolvable_step _ _ _ _ _ _ _ Hwf E1 Hr).
         -- inversion Hrun; subst. cbn [ds_reg with_reg]. split; [apply failed_reg_wf; exact Hwf|].
            eapply refs_mono; [|exact Hrefs]. intros r Hr. apply failed_reg_resolvable. exact Hr.
     + destruct (get_configurable (ds_reg s) c sel) as [[[reg2 full] rp2]|err] eqn:E2.
@@ -1372,7 +1372,8 @@ Proof.
            destruct (IH' (get_configurable_wf _ _ _ _ _ _ Hwf E2) Hin2 He1) as [r' [e' [Hi' [Hs' Ho']]]].
            exists r', e'. split; [exact Hi'|]. split; [exact Hs'|congruence].
         -- inversion Hrun; subst. cbn [ds_reg with_reg].
-           destruct (failed_reg_monotone (ds_reg s) c' sel _ _ Hs) as [e' [He' Ho']]. exists r, e'. auto.
+           destruct (failed_reg_monotone (ds_reg s) c' sel _ _ Hs) as [e' [He' Ho']]. exists r, e'.
+           split; [exact (in_retarget [] _ (kp, r) Hin)|]. split; assumption.
       * destruct (get_configurable (ds_reg s) c rsel) as [[[reg1 rfull] rp1]|err] eqn:E1.
         -- assert (Hwf1 : reg_wf reg1) by (eapply get_configurable_wf; eauto).
            destruct (C19_reference_keeps_object _ _ _ _ _ _ _ _ Hwf Hs E1) as [e1 [He1 Ho1]].
@@ -1387,9 +1388,8 @@ Proof.
            destruct (IH' (get_configurable_wf _ _ _ _ _ _ Hwf1 E2) Hin2 He2) as [r' [e' [Hi' [Hs' Ho']]]].
               exists r', e'. split; [exact Hi'|]. split; [exact Hs'|congruence].
            ++ inversion Hrun; subst. cbn [ds_reg with_reg].
-              destruct (get_configurable_monotone_sel _ _ _ _ _ _ E1 _ _ Hs) as [e1' [He1' Ho1']].
-              destruct (failed_reg_monotone reg1 c' sel _ _ He1') as [e' [He' Ho']]. exists r, e'.
-              split; [exact Hin|]. split; [exact He'|congruence].
+              destruct (failed_reg_monotone reg1 c' sel _ _ He1) as [e' [He' Ho']]. exists (retarget1 rp1 r), e'.
+              split; [exact (in_retarget rp1 _ (kp, r) Hin)|]. split; [exact He'|congruence].
         -- inversion Hrun; subst. cbn [ds_reg with_reg].
            destruct (failed_reg_monotone (ds_reg s) c' rsel _ _ Hs) as [e' [He' Ho']]. exists r, e'. auto.
     + destruct (get_configurable (ds_reg s) c sel) as [[[reg2 full] rp2]|err] eqn:E2.
